@@ -246,6 +246,8 @@ func runStress(rep *Report, replay string) {
 		c.QueryAt(rr, func(row column.Row) error { return row.SetRecord("rc", &ctr{}) })
 	}
 	var recMerged [2]int64
+	var extended, ttlBase int64
+	c.QueryAt(451, func(row column.Row) error { ttlBase = row.SetTTL(1000 * time.Hour).UnixNano(); return nil })
 	var stop int32
 	var ops int64
 	var torn, lost int64
@@ -289,6 +291,11 @@ func runStress(rep *Report, replay string) {
 				row.MergeString("s", fmt.Sprintf("v%06d", tagv))
 				return nil
 			})
+			// the deadline of row 451 is extended by one nanosecond (Extend is a merge into the expire column)
+			c.Query(func(txn *column.Txn) error {
+				return txn.QueryAt(451, func(column.Row) error { txn.TTL().Extend(1); return nil })
+			})
+			atomic.AddInt64(&extended, 1)
 			// record merge on the counter row of "this" writer's chunk: writers 0,1 → chunk 0; 2,3 → chunk 1
 			k := w / 2
 			c.QueryAt(recRows[k], func(row column.Row) error { return row.MergeRecord("rc", &ctr{n: 1, pad: int64(w)}) })
@@ -502,6 +509,11 @@ func runStress(rep *Report, replay string) {
 		if got != recMerged[k] {
 			addV("lost", fmt.Sprintf("record counter at row %d: %d after %d committed +1 record merges (chunk %d; merges of the other chunk ran concurrently)", rr, got, recMerged[k], k))
 		}
+	}
+	var ttlNow int64
+	c.QueryAt(451, func(row column.Row) error { ttlNow, _ = row.Int64("expire"); return nil })
+	if ttlNow != ttlBase+extended {
+		addV("lost", fmt.Sprintf("deadline of row 451: %d extensions of 1 ns committed, the deadline moved by %d ns (lost %d)", extended, ttlNow-ttlBase, ttlBase+extended-ttlNow))
 	}
 	// Count = live rows at quiescence
 	live := 0
